@@ -1,6 +1,7 @@
 """C15 history generator: deterministic (gen_state.Stream) sequences of LCD-window accesses.
 
-An op is ["w", addr, value] or ["r", addr].  Addresses: window base 0x2000 / 0xA000, bits 4-11 arbitrary
+An op is ["w", addr, value], ["r", addr], or one of the bulk verbs ["W", addr, v0, step, n] (n writes of
+(v0 + i*step) & 0xFF to the same address) / ["R", addr, n] (n reads of the same address).  Addresses: window base 0x2000 / 0xA000, bits 4-11 arbitrary
 (both models declare 4 KiB windows folded onto the low nibble), low nibble = cs<<2 | di<<1 | rw.
 
 Profiles
@@ -8,11 +9,20 @@ Profiles
            selects (both / right / left / none) for both directions.
   hostile  additionally raw accesses over all 16 low-nibble decodings in both directions (writes to read
            addresses, reads from write addresses).
+
+Long-range dimensions (round 3)
+  * data runs / read sweeps of 65..500+ accesses in ONE stretch (the 64-column counter wraps several times);
+  * "un-polled stretches": the number of writes a chip accepts between two status polls is a boundary-weighted
+    dimension (2^k - 1, 2^k, 2^k + 1 for the usual counter widths, up to 2^17); the stretch is assembled from
+    1-3 bulk verbs (own chip select or CS=both, instruction or data, either window) so that, together with what
+    the history already wrote since the chip's last poll, the total is exactly the chosen count.
+  The size of a history is bounded by `budget` (expanded accesses); one history per shard gets a forced stretch
+  of `big` writes (2^15 .. 3*2^16).
 """
 
 from __future__ import annotations
 
-from typing import Any, List
+from typing import Any, List, Optional
 
 from .gen_state import Stream
 
@@ -39,43 +49,116 @@ def instr_value(st: Stream, kind: int) -> int:
     return 0xC0 | st.below(64)
 
 
-def gen_history(st: Stream, profile: str, target: int) -> List[List[Any]]:
+
+RUN_LENGTHS = (65, 127, 128, 129, 130, 191, 192, 193, 200, 256, 257, 500)
+STEPS = (1, 1, 3, 5, 7, 0x11, 0x3F, 0, 0xFF)
+BOUND_SMALL = (15, 16, 17, 63, 64, 65, 127, 128, 129, 255, 256, 257, 511, 512, 513, 1023, 1024, 1025)
+BOUND_MEDIUM = (2047, 2048, 4095, 4096, 4097, 8192)
+BOUND_BIG = (65536, 65535, 131072, 65537, 32768, 196608, 131071, 32767)
+BUDGET = {"small": 2600, "medium": 14000}
+
+
+def gen_history(st: Stream, profile: str, target: int, budget: str = "small",
+                big: Optional[int] = None) -> List[List[Any]]:
     ops: List[List[Any]] = []
+    unpolled = [0, 0]  # generator-side bookkeeping: writes emitted for [left, right] since the chip's last poll
+    room = [BUDGET.get(budget, BUDGET["small"])]
+
+    def note(a: int, is_write: bool, n: int = 1) -> None:
+        cs, di, rw = (a >> 2) & 3, (a >> 1) & 1, a & 1
+        chips = ((0, 1), (1,), (0,), ())[cs]
+        if is_write and rw == 0:
+            for ci in chips:
+                unpolled[ci] += n
+        elif not is_write and rw == 1 and di == 0 and len(chips) == 1:
+            unpolled[chips[0]] = 0
 
     def w(cs: int, di: int, v: int) -> None:
-        ops.append(["w", addr(st, cs, di, 0), v & 0xFF])
+        a = addr(st, cs, di, 0)
+        ops.append(["w", a, v & 0xFF])
+        note(a, True)
 
     def r(cs: int, di: int) -> None:
-        ops.append(["r", addr(st, cs, di, 1)])
+        a = addr(st, cs, di, 1)
+        ops.append(["r", a])
+        note(a, False)
+
+    def wrun(cs: int, di: int, n: int) -> None:
+        if n <= 0:
+            return
+        if n == 1:
+            w(cs, di, st.byte())
+            return
+        a = addr(st, cs, di, 0)
+        ops.append(["W", a, st.byte(), st.choice(STEPS), n])
+        note(a, True, n)
+        room[0] -= n
+
+    def rrun(cs: int, di: int, n: int) -> None:
+        a = addr(st, cs, di, 1)
+        ops.append(["R", a, n])
+        note(a, False)
+        room[0] -= n
+
+    def stretch(count: int) -> None:
+        """Make one chip accept exactly `count` writes between two status polls, then poll it."""
+        chip_cs = st.choice(_CS_CHIP)
+        ci = 0 if chip_cs == CS_LEFT else 1
+        if st.chance(1, 2) or unpolled[ci] >= count:
+            r(chip_cs, 0)
+        need = count - unpolled[ci]
+        parts = st.choice((1, 1, 2, 3))
+        while need > 0:
+            n = need if parts <= 1 else 1 + st.below(need)
+            parts -= 1
+            wrun(st.choice((chip_cs, chip_cs, CS_BOTH)), st.choice((0, 1, 1)), n)
+            need -= n
+            if need > 0 and st.chance(1, 3):  # accesses that do not poll this chip may sit in between
+                k = st.below(3)
+                if k == 0:
+                    r(chip_cs, 1)
+                elif k == 1:
+                    r(_CS_CHIP[1 - _CS_CHIP.index(chip_cs)], 0)
+                else:
+                    r(st.choice((CS_NONE, CS_BOTH)), 0)
+        if st.chance(1, 4):
+            r(chip_cs, 1)
+        r(chip_cs, 0)
+        r(chip_cs, 0)
 
     # usually switch the chips on first (otherwise on/off is rarely exercised in its "on" state)
     if st.chance(3, 4):
         w(st.choice((CS_BOTH, CS_BOTH, CS_LEFT, CS_RIGHT)), 0, 0x3F)
+    big_at = 1 + st.below(12) if big else -1
     while len(ops) < target:
+        if big and len(ops) >= big_at:
+            stretch(big)
+            big = None
+            continue
         k = st.below(100)
-        if k < 22:  # single instruction write
+        if k < 20:  # single instruction write
             w(st.choice(_CS_WRITE), 0, instr_value(st, st.below(4)))
-        elif k < 40:  # single data write
+        elif k < 36:  # single data write
             w(st.choice(_CS_WRITE), 1, st.byte())
-        elif k < 50:  # single data read
+        elif k < 45:  # single data read
             r(st.choice(_CS_READ), 1)
-        elif k < 58:  # status read
+        elif k < 52:  # status read
             r(st.choice(_CS_READ), 0)
-        elif k < 66:  # fill a page (and a bit more): column wrap-around
+        elif k < 60:  # fill a page (and a bit more): column wrap-around
             cs = st.choice((CS_LEFT, CS_RIGHT, CS_BOTH))
             w(cs, 0, instr_value(st, 2))
             if st.chance(2, 3):
                 w(cs, 0, instr_value(st, 1))
-            n = st.choice((3, 9, 64, 65, 66, 70, 130)) if st.chance(1, 2) else 1 + st.below(80)
+            n = st.choice((3, 9, 64, 65, 66, 70, 129, 130, 200)) if st.chance(1, 2) else 1 + st.below(80)
             for _ in range(n):
                 w(cs, 1, st.byte())
-        elif k < 74:  # read sweep (dummy read + data, across the wrap)
+        elif k < 67:  # read sweep (dummy read + data, across the wrap)
             cs = st.choice(_CS_CHIP)
             if st.chance(3, 4):
                 w(st.choice((cs, cs, CS_BOTH)), 0, instr_value(st, 1))
             for _ in range(st.choice((2, 3, 5, 64, 65, 66, 1 + st.below(70)))):
                 r(cs, 1)
-        elif k < 82:  # read-modify-write of one column
+        elif k < 74:  # read-modify-write of one column
             cs = st.choice(_CS_CHIP)
             yv = instr_value(st, 1)
             w(cs, 0, yv)
@@ -83,18 +166,40 @@ def gen_history(st: Stream, profile: str, target: int) -> List[List[Any]]:
             r(cs, 1)
             w(cs, 0, yv)
             w(cs, 1, st.byte())
-        elif k < 88:  # write then poll status (busy flag), twice
+        elif k < 79:  # write then poll status (busy flag), twice
             cs = st.choice(_CS_CHIP)
             w(st.choice((cs, CS_BOTH)), st.below(2), st.byte())
             r(cs, 0)
             r(cs, 0)
-        elif k < 94:  # interleave the two chips
+        elif k < 84:  # interleave the two chips
             for _ in range(2 + st.below(6)):
                 cs = st.choice(_CS_CHIP)
                 if st.chance(1, 2):
                     w(cs, 1, st.byte())
                 else:
                     r(cs, 1)
+        elif k < 88:  # one long data run: the column counter wraps several times without any instruction between
+            cs = st.choice((CS_LEFT, CS_RIGHT, CS_BOTH))
+            if st.chance(1, 2):
+                w(cs, 0, instr_value(st, 2))
+            if st.chance(1, 2):
+                w(cs, 0, instr_value(st, 1))
+            n = st.choice(RUN_LENGTHS) if st.chance(2, 3) else 64 * (2 + st.below(6)) + st.below(64)
+            if n <= room[0]:
+                wrun(cs, 1, n)
+        elif k < 90:  # one long read run (data sweep over several wraps / repeated status polls)
+            cs = st.choice(_CS_CHIP)
+            if st.chance(2, 3):
+                n = st.choice(RUN_LENGTHS)
+                if n <= room[0]:
+                    rrun(cs, 1, n)
+            else:
+                rrun(cs, 0, st.choice((2, 3, 255, 256, 257)))
+        elif k < 94:  # un-polled stretch with a boundary count
+            pool = BOUND_SMALL + (BOUND_MEDIUM if budget != "small" else ())
+            count = st.choice(pool)
+            if count <= room[0]:
+                stretch(count)
         elif profile == "hostile":
             # raw accesses: any of the 16 decodings in either direction (reads twice as often as writes: a
             # write to a read address currently ends the comparison of a history, see known findings)
@@ -103,8 +208,10 @@ def gen_history(st: Stream, profile: str, target: int) -> List[List[Any]]:
                 a = addr(st, (lo >> 2) & 3, (lo >> 1) & 1, lo & 1)
                 if st.chance(1, 3):
                     ops.append(["w", a, st.byte()])
+                    note(a, True)
                 else:
                     ops.append(["r", a])
+                    note(a, False)
         else:
             w(CS_NONE, st.below(2), st.byte())
             r(st.choice((CS_NONE, CS_BOTH)), st.below(2))
